@@ -18,12 +18,12 @@ func init() {
 	core.Register(&core.Check{
 		ID: "C13", Level: "other", Title: "The ledger only grows by valid successors",
 		Explain: "Guard dominance on LedgerStoreImp: in AddBlock / SubmitBlock / ExecuteBlock the calls of saveBlock / submitBlock / executeBlock are dominated by the pass edge of block.Header.Height == GetCurrentBlockHeight()+1 (so heights <= current return without reaching any store call: idempotence) and (first two) by verifyHeader err==nil; in verifyHeader every non-genesis success return is dominated by prevHeader != nil with prevHeader = GetHeaderByHash(header.PrevBlockHash), by prev.Height+1 == header.Height and by the fail edge of prev.Timestamp >= header.Timestamp; in submitBlock the first batch/commit operations are dominated by Height==0 ∨ blockRoot == Header.BlockRoot with blockRoot = GetBlockRootWithPreBlockHashes(Height, [PrevBlockHash]); in saveBlock submitBlock is dominated by result.MerkleRoot == stateMerkleRoot. Block-store key pairing: SaveBlockHash/GetBlockHash, SaveBlock(header)/GetHeader, SaveTransaction/GetTransaction use the same key builders. NOT decided: that GetHeaderByHash may return a cached, not yet committed header of another fork (assumption).",
-		Run: runC13,
+		Run:     runC13,
 	})
 	core.Register(&core.Check{
 		ID: "C14", Level: "other", Title: "Blocks need a signature quorum of the validators in force",
 		Explain: "In LedgerStoreImp.verifyHeader (vbft arm): the required count m is extracted as an arithmetic tree over N=len(vbftPeerInfo) and proved ≡ N−⌊(N−1)/3⌋ for all N≥1 on the non-legacy edge and ≡ N−⌊6N/7⌋ on the legacy edge (quasi-linear normal forms), the legacy edge being selected exactly by NetworkId != MAIN_NET ∨ currentHeaderHeight <= 20000000 (decision table under both configuration facts); every success return of the vbft arm is dominated by the fail edge of len(Bookkeepers) < m, and VerifyMultiSignature(header.Hash(), header.Bookkeepers, m, header.SigData) err==nil with exactly those arguments; each iteration of the loop over header.Bookkeepers passes membership in vbftPeerInfo and the not-yet-used test and records the key as used (distinct-member idiom); every return whose first result is not the unchanged parameter map is dominated by multi-signature success and NewChainConfig != nil; the fields vbftPeerInfoheader/-block are written only from verifyHeader's result (AddHeader/SubmitBlock/AddBlock) and at initialisation. VerifyMultiSignature: len(sigs) >= m guard, every accepted signature sets a previously unset mask slot (distinct keys), valid flag checked per signature. Non-vbft arm: NextBookkeeper address equality and N−⌊(N−1)/3⌋. NOT decided: cryptographic validity (ontology-crypto).",
-		Run: runC14,
+		Run:     runC14,
 	})
 }
 
@@ -103,7 +103,10 @@ func runC13(c *core.Ctx) {
 			if b.Op != token.EQL && b.Op != token.NEQ {
 				return false, false
 			}
-			isParam := func(v ssa.Value) bool { p, ok := ir.Strip(v).(*ssa.Parameter); return ok && p.Name() == "stateMerkleRoot" }
+			isParam := func(v ssa.Value) bool {
+				p, ok := ir.Strip(v).(*ssa.Parameter)
+				return ok && p.Name() == "stateMerkleRoot"
+			}
 			if (isFieldNamed(b.X, "MerkleRoot") && isParam(b.Y)) || (isFieldNamed(b.Y, "MerkleRoot") && isParam(b.X)) {
 				return true, b.Op == token.EQL
 			}
@@ -135,7 +138,10 @@ func runC13(c *core.Ctx) {
 			if !ok {
 				return false
 			}
-			return isCallTo(base, ghbh) || func() bool { p, ok := base.(*ssa.Phi); return ok && len(eng.PhiLeaves(nil, p)) > 0 && anyCall(eng.PhiLeaves(nil, p), ghbh) }()
+			return isCallTo(base, ghbh) || func() bool {
+				p, ok := base.(*ssa.Phi)
+				return ok && len(eng.PhiLeaves(nil, p)) > 0 && anyCall(eng.PhiLeaves(nil, p), ghbh)
+			}()
 		}
 		fromParam := func(v ssa.Value) bool {
 			base, _, ok := fieldLoad(v)
